@@ -19,7 +19,7 @@ import (
 
 const simrtPath = "verif.local/simrt"
 
-var syncTypes = map[string]bool{"Mutex": true, "RWMutex": true, "WaitGroup": true}
+var syncTypes = map[string]bool{"Mutex": true, "RWMutex": true, "WaitGroup": true, "Map": true}
 
 type weaver struct {
 	fset  *token.FileSet
@@ -222,7 +222,7 @@ func (w *weaver) file(f *ast.File) {
 						c.Replace(&ast.SelectorExpr{X: id("simrt"), Sel: se.Sel})
 						w.used = true
 						w.stats["synctype"]++
-					} else if se.Sel.Name == "Cond" || se.Sel.Name == "NewCond" || se.Sel.Name == "Map" {
+					} else if se.Sel.Name == "Cond" || se.Sel.Name == "NewCond" {
 						w.errs = append(w.errs, w.pos(se)+": sync."+se.Sel.Name)
 					}
 				}
